@@ -1126,7 +1126,19 @@ def std(x):
     return sym_sqrt((d * d).mean())
 
 
-def any_(x):
+def _reduce2d(x, axis, f):
+    """any/all of a 2-D array along an axis (None: over everything)."""
+    rows = list(x.rows)
+    if axis is None:
+        return f(SymArr([e for r in rows for e in r.elems], dtype=bool_))
+    if axis in (1, -1):
+        return SymArr([f(r) for r in rows], dtype=bool_)
+    return SymArr([f(SymArr([r.elems[j] for r in rows], dtype=bool_)) for j in range(x.ncols)], dtype=bool_)
+
+
+def any_(x, axis=None):
+    if _is2d(x):
+        return _reduce2d(x, axis, any_)
     x = asarray(x)
     acc = False
     for e, p in zip(x.elems, x._present_list()):
@@ -1134,7 +1146,9 @@ def any_(x):
     return acc
 
 
-def all_(x):
+def all_(x, axis=None):
+    if _is2d(x):
+        return _reduce2d(x, axis, all_)
     x = asarray(x)
     acc = True
     for e, p in zip(x.elems, x._present_list()):
